@@ -183,9 +183,10 @@ OPTZLIST, RULEFORM, SCHEME = 'optzlist', 'ruleform', 'scheme'
 BIT, BITS, BITINT = 'bit', 'bits', 'bitint'
 MATRIX = 'matrix'
 ARRVIEW, DIGITS, DIGIT = 'arrview', 'digits', 'digit'
+BOOLMATRIX = 'list:list:bool'
 SYM, SYM2, SYMLIST, SYMLIST2 = 'sym', 'sym2', 'list:sym', 'list:sym2'
 ROWS = 'list:zlist'            # a Python list (or array) of rows
-COQ_TYPE.update({SYM: 'A', SYM2: 'B', DIGITS: 'list N', DIGIT: 'N', MATRIX: 'list (list Z)', BIT: 'bool', BITS: 'list bool', BITINT: 'bool', 'list:bitint': 'list bool', OPTZLIST: 'option (list Z)', RULEFORM: 'rule_form', SCHEME: 'scheme', STATE: 'S'})
+COQ_TYPE.update({'bool': 'bool', SYM: 'A', SYM2: 'B', DIGITS: 'list N', DIGIT: 'N', MATRIX: 'list (list Z)', BIT: 'bool', BITS: 'list bool', BITINT: 'bool', 'list:bitint': 'list bool', OPTZLIST: 'option (list Z)', RULEFORM: 'rule_form', SCHEME: 'scheme', STATE: 'S'})
 
 
 def elem_type(ty):
@@ -385,6 +386,38 @@ def _c16_ami_right(fn):
     return _c16_ami_parts(fn)[2]
 
 
+def _c02_mask_stmts(fn):
+    b = _body(fn)
+    # von_neumann_mask = np.zeros(..., dtype=bool) followed by the loop that fills it
+    for i, st in enumerate(b):
+        if isinstance(st, ast.Assign) and ast.unparse(st.targets[0]) == 'von_neumann_mask':
+            if i + 1 < len(b) and isinstance(b[i + 1], ast.For) and 'von_neumann_mask' in ast.unparse(b[i + 1].iter):
+                # nothing else in the function writes the mask
+                for j, other in enumerate(b):
+                    if j not in (i, i + 1):
+                        for n in ast.walk(other):
+                            if isinstance(n, ast.Name) and n.id == 'von_neumann_mask' and isinstance(n.ctx, ast.Store):
+                                raise TranslationError('von_neumann_mask is re-bound outside the statement range')
+                return [st, b[i + 1]]
+    raise TranslationError('the construction of von_neumann_mask (np.zeros + loop) was not found')
+
+
+def _c02_axis_stmts(fn):
+    b = _body(fn)
+    if [a.arg for a in fn.args.args] != ['rows', 'cols', 'r']:
+        raise TranslationError('parameters are not (rows, cols, r)')
+    loops = [st for st in b if isinstance(st, ast.For)]
+    ok = (len(loops) == 1 and ast.unparse(loops[0].target) == 'row' and ast.unparse(loops[0].iter) == 'range(rows)'
+          and len(loops[0].body) == 1 and isinstance(loops[0].body[0], ast.For)
+          and ast.unparse(loops[0].body[0].target) == 'col' and ast.unparse(loops[0].body[0].iter) == 'range(cols)')
+    if not ok:
+        raise TranslationError('the double loop `for row in range(rows): for col in range(cols):` was not found')
+    inner = loops[0].body[0].body
+    if not (len(inner) >= 2 and ast.unparse(inner[-1]) == 'indices[row, col] = (row_indices, col_indices)'):
+        raise TranslationError('the loop body does not end with indices[row, col] = (row_indices, col_indices)')
+    return inner[:-1]
+
+
 _SYMG = '{A : Type} (sym_dec : forall a b : A, {a = b} + {a <> b})'
 _SYMG2 = _SYMG + ' {B : Type} (sym2_dec : forall a b : B, {a = b} + {a <> b})'
 
@@ -452,6 +485,15 @@ TARGETS = [
          locate=_c16_ami_right, what='second argument of mutual_information(..)', generic='{A : Type}',
          free=[('cell_states_over_time', SYMLIST), ('temporal_distance', Z)], positive=['temporal_distance'],
          pylists=['cell_states_over_time'], params=[], attrs=[]),
+    dict(name='index_strides', prop='C01', file='ca_functions.py', cls=None, func='_index_strides',
+         params=[('arr', ZLIST), ('window_size', Z)], attrs=[], effects=True),
+    dict(name='vn_mask', prop='C02', file='ca_functions2d.py', cls=None, func='evolve2d',
+         locate_stmts=_c02_mask_stmts, what='that build von_neumann_mask', free=[('r', Z)], nonneg=['r'],
+         returns=['von_neumann_mask'], params=[], attrs=[], effects=True),
+    dict(name='axis_indices', prop='C02', file='ca_functions2d.py', cls=None, func='_get_neighbourhood_indices',
+         locate_stmts=_c02_axis_stmts, what='of the body of the double loop (before the dict store)',
+         free=[('row', Z), ('col', Z), ('r', Z), ('rows', Z), ('cols', Z)],
+         returns=['row_indices', 'col_indices'], params=[], attrs=[]),
     dict(name='hopfield_train', prop='C20', file='hopfield_net.py', cls='HopfieldNet', func='train',
          params=[('P', ROWS)], attrs=[], effects=True, attr_locals={'_W': MATRIX}),
     dict(name='hopfield_rule', prop='C20', file='hopfield_net.py', cls='HopfieldNet', func='_rule',
@@ -531,6 +573,30 @@ Fixpoint src_mapm {A B} (f : A -> res B) (l : list A) : res (list B) :=
   | [] => Ok []
   | x :: l' => bind (f x) (fun y => bind (src_mapm f l') (fun r => Ok (y :: r)))
   end.
+(* l[lo:hi] with Python's saturating semantics: a negative bound counts from the end, bounds are clipped to 0..len *)
+Definition src_clip (n : nat) (i : Z) : nat :=
+  if i <? 0 then Z.to_nat (Z.max (i + Z.of_nat n) 0) else Nat.min (Z.to_nat i) n.
+Definition src_slice {A} (l : list A) (lo hi : option Z) : list A :=
+  let n := length l in
+  let a := match lo with None => 0%nat | Some i => src_clip n i end in
+  let b := match hi with None => n | Some i => src_clip n i end in
+  firstn (b - a) (skipn a l).
+(* row[lo:hi] = v (a scalar broadcast into the slice; the length of the row does not change) *)
+Definition src_fill_slice {A} (row : list A) (lo hi : option Z) (v : A) : list A :=
+  let n := length row in
+  let a := match lo with None => 0%nat | Some i => src_clip n i end in
+  let b := match hi with None => n | Some i => src_clip n i end in
+  if (b <=? a)%nat then row else firstn a row ++ repeat v (b - a) ++ skipn b row.
+(* m[i] = f(m[i]) on a list of rows, Python indexing *)
+Definition src_row_upd {A} (m : list (list A)) (i : Z) (f : list A -> list A) : res (list (list A)) :=
+  match py_index (length m) i with
+  | None => Raise IndexError
+  | Some k => Ok (src_upd_nth m k f)
+  end.
+(* np.lib.stride_tricks.as_strided(l, shape=(len(l) - w + 1, w), strides=(s, s)): all windows of width w *)
+Definition src_as_strided_windows {A} (l : list A) (w : Z) : res (list (list A)) :=
+  if (w <? 0) || (Z.of_nat (length l) - w + 1 <? 0) then Raise ValueError
+  else Ok (map (fun i => firstn (Z.to_nat w) (skipn i l)) (seq 0 (Z.to_nat (Z.of_nat (length l) - w + 1)))).
 (* a loop whose body can raise, break or continue: the accumulator is threaded through the body *)
 Inductive src_ctl (A : Type) := Next (a : A) | Break (a : A).
 Arguments Next {A} a.
@@ -611,6 +677,13 @@ def _assigned(stmts, grp=None):
                     base = t.value if isinstance(t, ast.Subscript) else t
                     if _is_self_attr(base) and base.attr in _CUR_ATTR_LOCALS and 'self' + base.attr not in out:
                         out.append('self' + base.attr)
+            if isinstance(n, (ast.Assign, ast.AugAssign)):
+                for t in (n.targets if isinstance(n, ast.Assign) else [n.target]):
+                    base = t
+                    while isinstance(base, ast.Subscript):
+                        base = base.value
+                    if base is not t and isinstance(base, ast.Name) and base.id not in out:
+                        out.append(base.id)           # element / slice write into a local array
             if isinstance(n, ast.Assign):
                 tg = n.targets
             elif isinstance(n, ast.AugAssign):
@@ -1011,13 +1084,15 @@ class FunTrans:
                 and isinstance(sl.upper.operand, ast.Name) and sl.upper.operand.id in env.positive \
                 and env.vars.get(sl.upper.operand.id) == Z:
             return '(firstn (length %s - Z.to_nat %s)%%nat %s)' % (l, sl.upper.operand.id, l), rty
-        for b in (sl.lower, sl.upper):
-            if b is not None and not self.is_nonneg(b, env):
-                _err(e, 'slice bound that is not known to be >= 0 (negative bounds count from the end)')
         lo = self.expr(sl.lower, env) if sl.lower is not None else None
         hi = self.expr(sl.upper, env) if sl.upper is not None else None
         if (lo and lo[1] != Z) or (hi and hi[1] != Z):
             _err(e, 'slice bound that is not an int')
+        if any(b is not None and not self.is_nonneg(b, env) for b in (sl.lower, sl.upper)):
+            # a bound that may be negative: Python's saturating slice (src_slice: a negative bound counts from the
+            # end, every bound is clipped to 0..len)
+            return '(src_slice %s %s %s)' % (l, '(Some %s)' % lo[0] if lo else 'None',
+                                             '(Some %s)' % hi[0] if hi else 'None'), rty
         if lo is None and hi is None:
             return l, rty
         if lo is None:
@@ -1181,6 +1256,30 @@ class FunTrans:
         if isinstance(f, ast.Attribute) and isinstance(f.value, ast.Name) and f.value.id == 'np':
             if not self.mod.imports_numpy_as_np:
                 _err(e, '`np` is not `import numpy as np` in this module')
+            if f.attr == 'concatenate' and len(e.args) == 1 and isinstance(e.args[0], ast.Tuple) and e.args[0].elts:
+                parts = [self.expr(x, env) for x in e.args[0].elts]
+                if any(t not in (ZLIST, ZVEC) for _, t in parts):
+                    _err(e, 'np.concatenate of values that are not 1-D int arrays')
+                return '(' + ' ++ '.join(t for t, _ in parts) + ')', ZLIST
+            if f.attr == 'arange' and len(e.args) == 1:
+                a, ta = self.expr(e.args[0], env)
+                if ta != Z:
+                    _err(e, 'np.arange of a non-int')
+                return '(src_range 0 %s)' % a, ZLIST
+            if f.attr == 'absolute' and len(e.args) == 1:
+                a, ta = self.expr(e.args[0], env)
+                if ta != Z:
+                    _err(e, 'np.absolute of a non-int')
+                return '(Z.abs %s)' % a, Z
+            if f.attr == 'zeros' and len(e.args) == 1 and isinstance(e.args[0], ast.Tuple) and len(e.args[0].elts) == 2 \
+                    and len(e.keywords) == 1 and e.keywords[0].arg == 'dtype' and ast.unparse(e.keywords[0].value) == 'bool':
+                dims = e.args[0].elts
+                if not all(self.is_nonneg(d, env) for d in dims):
+                    _err(e, 'np.zeros with a dimension that is not known to be >= 0')
+                (a, ta), (b, tb) = self.expr(dims[0], env), self.expr(dims[1], env)
+                if ta != Z or tb != Z:
+                    _err(e, 'np.zeros with non-int dimensions')
+                return '(repeat (repeat false (Z.to_nat %s)) (Z.to_nat %s))' % (b, a), BOOLMATRIX
             if f.attr == 'zeros' and len(e.args) == 1 and isinstance(e.args[0], ast.Tuple) and len(e.args[0].elts) == 2 \
                     and all(k.arg == 'dtype' for k in e.keywords):
                 dims = e.args[0].elts
@@ -1253,7 +1352,7 @@ class FunTrans:
         if isinstance(f, ast.Name):
             callee = next((t for t in TARGETS if t['file'] == self.mod.fname and t.get('cls') is None
                            and t['func'] == f.id and not t.get('inner') and not t.get('nested')
-                           and not t.get('locate')), None)
+                           and not t.get('locate') and not t.get('locate_stmts')), None)
             if callee is None and self.t.get('cls') is None:
                 # a closure defined in the same enclosing function
                 callee = next((t for t in TARGETS if t['file'] == self.mod.fname and t.get('cls') is None
@@ -1330,6 +1429,10 @@ class FunTrans:
                 if tl == 'emptylist':
                     return '(@nil bool)', BITS
             _err(e, "''.join(..) other than ''.join([str(x) for x in <list of 0/1 ints>])")
+        # range(..) as a value: the list it enumerates (a later comprehension or loop materialises it)
+        if isinstance(f, ast.Name) and f.id == 'range' and not e.keywords and 1 <= len(e.args) <= 3:
+            lst, ety, _ = self.iter_source(e, env)
+            return lst, ZLIST
         if isinstance(f, ast.Name) and f.id == 'abs' and len(e.args) == 1:
             a, ta = self.expr(e.args[0], env)
             if ta != Z:
@@ -1491,6 +1594,19 @@ class FunTrans:
 
         if isinstance(s, ast.Expr) and isinstance(s.value, ast.Constant) and isinstance(s.value.value, str):
             return cont(env)                                                    # docstring
+        # the sliding-window idiom (three statements, checked syntactically):
+        #   shape = X.shape[:-1] + (X.shape[-1] - W + 1, W); strides = X.strides + (X.strides[-1],)
+        #   return np.lib.stride_tricks.as_strided(X, shape=shape, strides=strides)
+        # on a 1-D array X: row i of the result is X[i : i + W], i = 0 .. len(X) - W (ValueError for a negative count)
+        if len(stmts) == 3 and isinstance(s, ast.Assign) and isinstance(stmts[2], ast.Return):
+            m = re.match(r'^shape = (\w+)\.shape\[:-1\] \+ \((\w+)\.shape\[-1\] - (\w+) \+ 1, (\w+)\)$', ast.unparse(s))
+            if m and m.group(1) == m.group(2) and m.group(3) == m.group(4):
+                X, W = m.group(1), m.group(3)
+                if ast.unparse(stmts[1]) == 'strides = %s.strides + (%s.strides[-1],)' % (X, X) and \
+                        ast.unparse(stmts[2]) == 'return np.lib.stride_tricks.as_strided(%s, shape=shape, strides=strides)' % X \
+                        and env.vars.get(X) in (ZLIST, ZVEC) and env.vars.get(W) == Z and self.mod.imports_numpy_as_np:
+                    r = self.bind(env, s, 'src_as_strided_windows %s %s' % (X, W))
+                    return self.wrap_binds(env, self.ret(GRID2, r))
         # the dictionary idiom (last two statements)
         if self.is_dict_idiom(s, rest):
             return self.dict_idiom(s, rest[0], env)
@@ -1545,6 +1661,28 @@ class FunTrans:
                     fn = '(fun _ => %s)' % v
                 r = self.bind(env, s, 'src_mat_upd %s %s %s %s' % (name, i, j, fn))
                 return self.wrap_binds(env, self.let(name, r, cont(env.copy())))
+        if isinstance(s, ast.Assign) and len(s.targets) == 1 and isinstance(s.targets[0], ast.Subscript) \
+                and isinstance(s.targets[0].slice, ast.Slice) and isinstance(s.targets[0].value, ast.Subscript) \
+                and isinstance(s.targets[0].value.value, ast.Name) \
+                and env.vars.get(s.targets[0].value.value.id) == BOOLMATRIX:
+            # X[i][lo:hi] = 0 / 1 / False / True: a scalar broadcast into a slice of row i (Python indexing of the
+            # row, saturating slice; the row keeps its length)
+            tg = s.targets[0]
+            X = tg.value.value.id
+            sl = tg.slice
+            if sl.step is not None:
+                _err(s, 'slice assignment with a step')
+            if not (isinstance(s.value, ast.Constant) and s.value.value in (0, 1, True, False)):
+                _err(s, 'slice assignment of something that is not the scalar 0 / 1 / False / True')
+            v = 'true' if s.value.value else 'false'
+            i, ti = self.expr(tg.value.slice, env)
+            lo = self.expr(sl.lower, env) if sl.lower is not None else None
+            hi = self.expr(sl.upper, env) if sl.upper is not None else None
+            if ti != Z or (lo and lo[1] != Z) or (hi and hi[1] != Z):
+                _err(s, 'slice assignment with a non-int index or bound')
+            r = self.bind(env, s, 'src_row_upd %s %s (fun row_ => src_fill_slice row_ %s %s %s)' % (
+                X, i, '(Some %s)' % lo[0] if lo else 'None', '(Some %s)' % hi[0] if hi else 'None', v))
+            return self.wrap_binds(env, self.let(X, r, cont(env.copy())))
         if isinstance(s, ast.Assign):
             if len(s.targets) != 1:
                 _err(s, 'multiple assignment targets')
@@ -2200,6 +2338,52 @@ def _find_function(mod, target):
     return None, fn
 
 
+def translate_stmt_fragment(mod, target):
+    """a STATEMENT RANGE inside a function, as a function of its declared free locals returning the named locals.
+    target['locate_stmts'](fn) returns the list of statements (consecutive statements of one block) after checking
+    the shape around them; target['returns'] names the locals whose values after the range are the result."""
+    _, fn = _find_function(mod, target)
+    stmts = target['locate_stmts'](fn)
+    ft = FunTrans(mod, target, None, {}, {})
+    ft.mode_effects_ok = target.get('effects', False)
+    env = Env(ft)
+    for p, ty in target['free']:
+        if p in TEMPLATE_NAMES and re.match(r'^[A-Za-z]+$', p):
+            env.alias[p] = 'py_' + p
+        else:
+            _check_ident(fn, p)
+        env.vars[p] = ty
+        if p in target.get('pylists', []):
+            env.pylists.add(p)
+    env.nonneg = set(target.get('nonneg', [])) | set(target.get('positive', []))
+    env.positive = set(target.get('positive', []))
+    if _contains(stmts, (ast.Return, ast.Raise)):
+        raise TranslationError('the statement range contains a return / raise')
+
+    def k(env2):
+        outs = []
+        for nm in target['returns']:
+            if nm not in env2.vars:
+                raise TranslationError('local %s is not defined at the end of the statement range' % nm)
+            outs.append((env2.alias.get(nm, nm), env2.vars[nm]))
+        if len(outs) == 1:
+            return ft.ret(outs[0][1], outs[0][0])
+        ty = outs[-1][1]
+        for _, t in reversed(outs[:-1]):
+            ty = pair_of(t, ty)
+        tx = outs[-1][0]
+        for n_, _ in reversed(outs[:-1]):
+            tx = '(%s, %s)' % (n_, tx)
+        return ft.ret(ty, tx)
+    body = ft.block(stmts, env, k)
+    body, cty = ft.finish(body, stmts[0])
+    mod.results[target['name']] = (ft.rty, ft.effects)
+    return [dict(name=target['name'], params=[(env.alias.get(p, p), ty) for p, ty in target['free']], attrs=[],
+                 body=body, cty=cty, lo=stmts[0].lineno, hi=stmts[-1].end_lineno, generic=target.get('generic', ''),
+                 stateful=False,
+                 what='%s, the statements %s' % ('.'.join([target['func']] + target.get('nested', [])), target['what']))]
+
+
 def translate_fragment(mod, target):
     """an EXPRESSION inside a function, as a function of its free locals.  target['locate'](fn) returns the
     expression node after checking the statement shape around it (raises TranslationError otherwise);
@@ -2230,6 +2414,8 @@ def translate_fragment(mod, target):
 
 
 def translate_target(mod, target):
+    if target.get('locate_stmts'):
+        return translate_stmt_fragment(mod, target)
     if target.get('locate'):
         return translate_fragment(mod, target)
     clsnode, fn = _find_function(mod, target)
@@ -2537,6 +2723,8 @@ PROP_FUNS = {
     'C06': ['src_until_fixed_point_timesteps'],
     'C07': ['src_bits_to_int', 'src_int_to_bits', 'src_binary_rule'],
     'C18': ['src_binary_derivative', 'src_cyclic_binary_derivative'],
+    'C01': ['src_index_strides'],
+    'C02': ['src_vn_mask', 'src_axis_indices'],
     'C08': ['src_totalistic_rule', 'src_totalistic_rule_call'],
     'C16': ['src_shannon_symbols', 'src_shannon_count', 'src_joint_indicator', 'src_ami_guard', 'src_ami_left',
             'src_ami_right'],
